@@ -33,7 +33,7 @@ ASSUMPTIONS = [
 ]
 BUDGET = {
     "quick": {"examples": 220, "wall_s": 100, "shards": 4},
-    "thorough": {"examples": 2500, "wall_s": 1200, "shards": 16},
+    "thorough": {"examples": 1600, "wall_s": 1500, "shards": 16},
 }
 
 KEYS = ["a", "a.b", "a.bc", "ab", "k", "k.k", "backend.slurm.log_mode", "backend.slurmx.y", "backend.slurm",
